@@ -891,8 +891,106 @@ Definition intrinsic_probes : list probe := [
     "true0falsetruetrue,true0falsetruetrue,true0falsetruetrue,true0falsetruetrue,true0falsetruetrue,true0falsetruetrue"
 ].
 
+(* 15.3.4.5 step 15: the own length of a bound function is max(0, L - n) EXACTLY, for targets of
+   0..3 parameters (and natives, and bound functions) bound with 0..4 arguments, always
+   {writable, enumerable, configurable} = false; bound calls prepend the bound arguments.
+   11.1.5 / 13.2: the get/set functions of an object literal, and functions given to
+   defineProperty/create/defineProperties, are ordinary function objects (own length, own
+   prototype {w,!e,!c} with the constructor back-link, constructible). *)
+Definition function_probes : list probe := [
+  P "fn:bind.matrix"
+    "(function(ts){var a=[1,2,3,4],out=[];for(var i=0;i<ts.length;i++){var row=[];for(var n=0;n<=4;n++){var b=ts[i].bind.apply(ts[i],[null].concat(a.slice(0,n)));var d=Object.getOwnPropertyDescriptor(b,'length');row.push(d&&!d.writable&&!d.enumerable&&!d.configurable&&typeof b==='function'?d.value:'bad')}out.push(row.join(''))}return out.join()})([function(){},function(a){},function(a,b){},function(a,b,c){}])"
+    "00000,10000,21000,32100";
+  P "fn:bind.natives"
+    "(function(ts){var a=[1,2,3,4],out=[];for(var i=0;i<ts.length;i++){var row=[];for(var n=0;n<=4;n++){var b=ts[i].bind.apply(ts[i],[null].concat(a.slice(0,n)));var d=Object.getOwnPropertyDescriptor(b,'length');row.push(d&&!d.writable&&!d.enumerable&&!d.configurable&&typeof b==='function'?d.value:'bad')}out.push(row.join(''))}return out.join()})([Math.max,parseInt,String.prototype.replace,Date.UTC,Array,Math.random,Function.prototype.call,Object.defineProperty])"
+    "21000,21000,21000,76543,10000,00000,10000,32100";
+  P "fn:bind.bound"
+    "(function(){function t(a,b,c){}var b1=t.bind(null,1),b2=b1.bind(null,2),b3=b2.bind(null,3),b4=b3.bind(null,4),b5=b4.bind(null,5,6);return (function(ts){var a=[1,2,3,4],out=[];for(var i=0;i<ts.length;i++){var row=[];for(var n=0;n<=4;n++){var b=ts[i].bind.apply(ts[i],[null].concat(a.slice(0,n)));var d=Object.getOwnPropertyDescriptor(b,'length');row.push(d&&!d.writable&&!d.enumerable&&!d.configurable&&typeof b==='function'?d.value:'bad')}out.push(row.join(''))}return out.join()})([b1,b2,b3,b4,b5,Math.max.bind(null,1)])})()"
+    "21000,10000,00000,00000,00000,10000";
+  P "fn:bind.calls"
+    "(function(){function t(a,b,c){return [this.k,a,b,c,arguments.length].join('')}var o={k:7};return [t.bind(o)(1),t.bind(o,1,2)(3),t.bind(o,1,2,3,4)(5),parseInt.bind(null,'101',2)(10),Math.max.bind(null,9)(1,2)].join()})()"
+    "711,71233,71235,5,9";
+  P "fn:accessor.literal"
+    "(function(){var o={get x(){return 1},set x(v){},get y(){return 2},set z(v){}};var dx=Object.getOwnPropertyDescriptor(o,'x'),dy=Object.getOwnPropertyDescriptor(o,'y'),dz=Object.getOwnPropertyDescriptor(o,'z');return [dx.get,dx.set,dy.get,dz.set].map((function(f){var d=Object.getOwnPropertyDescriptor(f,'length'),p=Object.getOwnPropertyDescriptor(f,'prototype');return (d?[d.value,d.writable,d.enumerable,d.configurable].join(''):'none')+'/'+(p?[typeof p.value,p.writable,p.enumerable,p.configurable,p.value.constructor===f,Object.getOwnPropertyDescriptor(p.value,'constructor').enumerable,Object.getPrototypeOf(p.value)===Object.prototype].join(''):'none')+'/'+(Object.getPrototypeOf(f)===Function.prototype)+typeof f+Object.prototype.toString.call(f)})).join()})()"
+    "0falsefalsefalse/objecttruefalsefalsetruefalsetrue/truefunction[object Function],1falsefalsefalse/objecttruefalsefalsetruefalsetrue/truefunction[object Function],0falsefalsefalse/objecttruefalsefalsetruefalsetrue/truefunction[object Function],1falsefalsefalse/objecttruefalsefalsetruefalsetrue/truefunction[object Function]";
+  P "fn:accessor.defined"
+    "(function(){var p=Object.defineProperty({},'w',{get:function(){return 1},set:function(a,b){}});var dp=Object.getOwnPropertyDescriptor(p,'w');var c=Object.create({},{v:{get:function(){return 1}}});var dc=Object.getOwnPropertyDescriptor(c,'v');var m=Object.defineProperties({},{u:{set:function(a,b,c){}}});var dm=Object.getOwnPropertyDescriptor(m,'u');return [dp.get,dp.set,dc.get,dm.set].map((function(f){var d=Object.getOwnPropertyDescriptor(f,'length'),p=Object.getOwnPropertyDescriptor(f,'prototype');return (d?[d.value,d.writable,d.enumerable,d.configurable].join(''):'none')+'/'+(p?[typeof p.value,p.writable,p.enumerable,p.configurable,p.value.constructor===f,Object.getOwnPropertyDescriptor(p.value,'constructor').enumerable,Object.getPrototypeOf(p.value)===Object.prototype].join(''):'none')+'/'+(Object.getPrototypeOf(f)===Function.prototype)+typeof f+Object.prototype.toString.call(f)})).join()})()"
+    "0falsefalsefalse/objecttruefalsefalsetruefalsetrue/truefunction[object Function],2falsefalsefalse/objecttruefalsefalsetruefalsetrue/truefunction[object Function],0falsefalsefalse/objecttruefalsefalsetruefalsetrue/truefunction[object Function],3falsefalsefalse/objecttruefalsefalsetruefalsetrue/truefunction[object Function]";
+  P "fn:accessor.construct"
+    "(function(){var o={get x(){this.k=1}};var G=Object.getOwnPropertyDescriptor(o,'x').get;var i=new G;return [i.k,i instanceof G,Object.getPrototypeOf(i)===G.prototype,i.constructor===G].join()})()"
+    "1,true,true,true";
+  P "fn:method.values"
+    "(function(){var o={m:function(a,b){},n:function n2(){}};return [o.m,o.n].map((function(f){var d=Object.getOwnPropertyDescriptor(f,'length'),p=Object.getOwnPropertyDescriptor(f,'prototype');return (d?[d.value,d.writable,d.enumerable,d.configurable].join(''):'none')+'/'+(p?[typeof p.value,p.writable,p.enumerable,p.configurable,p.value.constructor===f,Object.getOwnPropertyDescriptor(p.value,'constructor').enumerable,Object.getPrototypeOf(p.value)===Object.prototype].join(''):'none')+'/'+(Object.getPrototypeOf(f)===Function.prototype)+typeof f+Object.prototype.toString.call(f)})).join()})()"
+    "2falsefalsefalse/objecttruefalsefalsetruefalsetrue/truefunction[object Function],0falsefalsefalse/objecttruefalsefalsetruefalsetrue/truefunction[object Function]"
+].
+
+(* 15.3.2.1: the arguments of Function / new Function are "all but the last = parameter texts,
+   joined with commas" and "last = body"; every way of splitting the same text over the arguments
+   must give the function that split denotes.  $X and $Y are replaced by the harness with
+   identifiers: the fixed cx, cy when the probes run as ordinary probes in every configuration,
+   and FRESH identifiers in the cross-runtime histories, where another runtime of the same process
+   (fresh, underscore, a copy) first runs some of these templates in a random order and the
+   observed runtime (fresh, underscore, Copy(), copy of a copy, a copy of that other runtime,
+   made before or after) then runs all of them in another random order: what a runtime answers
+   must not depend on what other runtimes did before.  The expectations do not depend on the
+   identifiers. *)
+Definition cross_probes : list probe := [
+  P "cross:F(X)(Y)"
+    "(function(mk){try{var f=mk();var r;try{r=String(f(2,3,4))}catch(e){r=e.name}return [f.length,r].join()}catch(e){return e.name}})(function(){return Function('$X','$Y')})"
+    "1,ReferenceError";
+  P "cross:F(X,Y)"
+    "(function(mk){try{var f=mk();var r;try{r=String(f(2,3,4))}catch(e){r=e.name}return [f.length,r].join()}catch(e){return e.name}})(function(){return Function('$X,$Y')})"
+    "0,ReferenceError";
+  P "cross:newF(X)(Y)"
+    "(function(mk){try{var f=mk();var r;try{r=String(f(2,3,4))}catch(e){r=e.name}return [f.length,r].join()}catch(e){return e.name}})(function(){return new Function('$X','$Y')})"
+    "1,ReferenceError";
+  P "cross:F(X, Y)(body)"
+    "(function(mk){try{var f=mk();var r;try{r=String(f(2,3,4))}catch(e){r=e.name}return [f.length,r].join()}catch(e){return e.name}})(function(){return Function('$X, $Y','return $X+$Y')})"
+    "2,5";
+  P "cross:F(X,Y)(body)"
+    "(function(mk){try{var f=mk();var r;try{r=String(f(2,3,4))}catch(e){r=e.name}return [f.length,r].join()}catch(e){return e.name}})(function(){return Function('$X,$Y','return $X+$Y')})"
+    "2,5";
+  P "cross:F( X )(Y)(body)"
+    "(function(mk){try{var f=mk();var r;try{r=String(f(2,3,4))}catch(e){r=e.name}return [f.length,r].join()}catch(e){return e.name}})(function(){return Function(' $X ','$Y','return $X+$Y')})"
+    "2,5";
+  P "cross:F(X)(Y)(body)"
+    "(function(mk){try{var f=mk();var r;try{r=String(f(2,3,4))}catch(e){r=e.name}return [f.length,r].join()}catch(e){return e.name}})(function(){return new Function('$X','$Y','return $X+$Y')})"
+    "2,5";
+  P "cross:F(X,Y,body)"
+    "(function(mk){try{var f=mk();var r;try{r=String(f(2,3,4))}catch(e){r=e.name}return [f.length,r].join()}catch(e){return e.name}})(function(){return Function('$X,$Y,return $X+$Y')})"
+    "SyntaxError";
+  P "cross:F(X,Y)(z)(body)"
+    "(function(mk){try{var f=mk();var r;try{r=String(f(2,3,4))}catch(e){r=e.name}return [f.length,r].join()}catch(e){return e.name}})(function(){return Function('$X,$Y','z','return $X+$Y+z')})"
+    "3,9";
+  P "cross:F(X)(Y,z)(body)"
+    "(function(mk){try{var f=mk();var r;try{r=String(f(2,3,4))}catch(e){r=e.name}return [f.length,r].join()}catch(e){return e.name}})(function(){return Function('$X','$Y,z','return $X+$Y+z')})"
+    "3,9";
+  P "cross:F(X,Y,z)(body2)"
+    "(function(mk){try{var f=mk();var r;try{r=String(f(2,3,4))}catch(e){r=e.name}return [f.length,r].join()}catch(e){return e.name}})(function(){return Function('$X,$Y,z','return $X*$Y*z')})"
+    "3,24";
+  P "cross:F(X)(ret7)"
+    "(function(mk){try{var f=mk();var r;try{r=String(f(2,3,4))}catch(e){r=e.name}return [f.length,r].join()}catch(e){return e.name}})(function(){return Function('$X','return 7')})"
+    "1,7";
+  P "cross:F(X,ret7)"
+    "(function(mk){try{var f=mk();var r;try{r=String(f(2,3,4))}catch(e){r=e.name}return [f.length,r].join()}catch(e){return e.name}})(function(){return Function('$X,return 7')})"
+    "SyntaxError";
+  P "cross:F(X)(ret8)"
+    "(function(mk){try{var f=mk();var r;try{r=String(f(2,3,4))}catch(e){r=e.name}return [f.length,r].join()}catch(e){return e.name}})(function(){return Function('$X','return 8')})"
+    "1,8";
+  P "cross:F()(X,Y)"
+    "(function(mk){try{var f=mk();var r;try{r=String(f(2,3,4))}catch(e){r=e.name}return [f.length,r].join()}catch(e){return e.name}})(function(){return Function('','$X,$Y')})"
+    "0,ReferenceError";
+  P "cross:F()"
+    "(function(mk){try{var f=mk();var r;try{r=String(f(2,3,4))}catch(e){r=e.name}return [f.length,r].join()}catch(e){return e.name}})(function(){return Function()})"
+    "0,undefined";
+  P "cross:F(empty)"
+    "(function(mk){try{var f=mk();var r;try{r=String(f(2,3,4))}catch(e){r=e.name}return [f.length,r].join()}catch(e){return e.name}})(function(){return Function('')})"
+    "0,undefined"
+].
+
 Definition all_probes : list probe :=
-  (probes ++ ext_probes ++ kind_probes ++ regression_probes ++ intrinsic_probes)%list.
+  (probes ++ ext_probes ++ kind_probes ++ regression_probes ++ intrinsic_probes ++
+   function_probes ++ cross_probes)%list.
 
 (* the standard objects that must have a kind probe *)
 Definition kind_required : list string :=
